@@ -15,6 +15,14 @@ def groups(n, seed):
         pk = gen.random_params(rng, iteration_limit=int(rng.integers(0, 30)), collect_path=True,
                                penalty_update=[PenaltyUpdate.ObjectiveFilter, PenaltyUpdate.LagrangianFilter][i % 2])
         gs.append({"tag": "C12.filter", "runs": [{"prob": family_spec(i, rng), "params": pk}]})
+    # several solver objects in one process, each with its own observers: a solver's story is told to its own callbacks only
+    for i in range(max(4, n // 15)):
+        pk = gen.random_params(rng, iteration_limit=15, collect_path=True)
+        ps3 = family_spec(i, rng)
+        gs.append({"tag": "C12.twosolvers", "runs": [
+            {"prob": ps3, "params": pk, "run": "A"},
+            {"prob": ps3 if i % 2 == 0 else family_spec(i + 1, rng), "params": gen.random_params(rng, iteration_limit=12, collect_path=bool(i % 2)), "run": "B"},
+            {"prob": ps3, "params": pk, "run": "C"}]})
     # user-supplied starts outside the variable box: the first announced step starts from the transformed x0 itself
     for i in range(max(4, n // 15)):
         nv = int(rng.integers(2, 5))
